@@ -222,3 +222,60 @@ pub proof fn lemma_prefix_range(p: GuidPrefix, lo: GUID, hi: GUID, g: GUID)
     }
     assert(guid_cmp(lo, hi) == eid_cmp(lo.entity_id, hi.entity_id));
 }
+
+// ---- the derived order on GUID is a total order (sanity of the key model: the BTreeMap shim's
+//      `is_range_of` contract is only satisfiable for a strict total order on the keys) ----
+pub proof fn lemma_first_diff(a: Seq<u8>, b: Seq<u8>, k: int) -> (i: int)
+    requires a.len() == b.len(), 0 <= k <= a.len(), !(a =~= b), forall|j: int| 0 <= j < k ==> a[j] == b[j]
+    ensures k <= i < a.len(), a[i] != b[i], forall|j: int| 0 <= j < i ==> a[j] == b[j]
+    decreases a.len() - k
+{
+    if k == a.len() { assert(a =~= b); k }
+    else if a[k] != b[k] { k }
+    else { lemma_first_diff(a, b, k + 1) }
+}
+
+pub proof fn lemma_bytes_cmp_laws(a: Seq<u8>, b: Seq<u8>, c: Seq<u8>)
+    requires a.len() == b.len(), b.len() == c.len()
+    ensures
+        bytes_cmp(a, a) == Ordering::Equal,
+        bytes_cmp(a, b) == Ordering::Equal <==> a == b,
+        bytes_cmp(a, b) == Ordering::Less <==> bytes_cmp(b, a) == Ordering::Greater,
+        bytes_cmp(a, b) == Ordering::Less && bytes_cmp(b, c) == Ordering::Less ==> bytes_cmp(a, c) == Ordering::Less,
+{
+    if bytes_lt(a, b) { lemma_bytes_lt_asym(a, b); }
+    if bytes_lt(b, a) { lemma_bytes_lt_asym(b, a); }
+    if !(a =~= b) {
+        let i = lemma_first_diff(a, b, 0);
+        if a[i] < b[i] { assert(first_diff_lt(a, b, i)); } else { assert(first_diff_lt(b, a, i)); }
+    }
+    if bytes_lt(a, b) && bytes_lt(b, c) {
+        let i = choose|i: int| #[trigger] first_diff_lt(a, b, i);
+        let k = choose|k: int| #[trigger] first_diff_lt(b, c, k);
+        let m = if i <= k { i } else { k };
+        assert(first_diff_lt(a, c, m));
+        lemma_bytes_lt_asym(a, c);
+    }
+}
+
+pub proof fn lemma_guid_order_total(a: GUID, b: GUID, c: GUID)
+    ensures
+        guid_cmp(a, a) == Ordering::Equal,                                                                          // [guid.order]
+        guid_cmp(a, b) == Ordering::Equal <==> a == b,                                                              // [guid.order]
+        guid_cmp(a, b) == Ordering::Less <==> guid_cmp(b, a) == Ordering::Greater,                                  // [guid.order]
+        guid_cmp(a, b) == Ordering::Less && guid_cmp(b, c) == Ordering::Less ==> guid_cmp(a, c) == Ordering::Less,  // [guid.order]
+{
+    lemma_bytes_cmp_laws(a.prefix.bytes@, b.prefix.bytes@, c.prefix.bytes@);
+    lemma_bytes_cmp_laws(b.prefix.bytes@, a.prefix.bytes@, c.prefix.bytes@);
+    lemma_bytes_cmp_laws(a.entity_id.entity_key@, b.entity_id.entity_key@, c.entity_id.entity_key@);
+    lemma_bytes_cmp_laws(b.entity_id.entity_key@, a.entity_id.entity_key@, c.entity_id.entity_key@);
+    lemma_bytes_cmp_laws(a.prefix.bytes@, c.prefix.bytes@, c.prefix.bytes@);
+    lemma_bytes_cmp_laws(a.entity_id.entity_key@, c.entity_id.entity_key@, c.entity_id.entity_key@);
+    if guid_cmp(a, b) == Ordering::Equal {
+        assert(a.prefix.bytes =~= b.prefix.bytes);
+        assert(a.entity_id.entity_key =~= b.entity_id.entity_key);
+        assert(a.entity_id.entity_kind == b.entity_id.entity_kind);
+        assert(a.entity_id == b.entity_id);
+        assert(a == b);
+    }
+}
